@@ -716,12 +716,16 @@ func (nfs *Nfs) NFSPROC3_RENAME(args nfstypes.RENAME3args) nfstypes.RENAME3res {
 			// must lock 3 or 4 inodes in order
 			var to *inode.Inode
 			var from *inode.Inode
+			// read what is needed from the directories while they are still locked
+			samedir := dipto == dipfrom
+			dipfromInum := dipfrom.Inum
+			diptoInum := dipto.Inum
 			op.Abort()
 			op = fstxn.Begin(nfs.fsstate)
-			if dipto != dipfrom {
+			if !samedir {
 				inums := make([]common.Inum, 4)
-				inums[0] = dipfrom.Inum
-				inums[1] = dipto.Inum
+				inums[0] = dipfromInum
+				inums[1] = diptoInum
 				inums[2] = frominum
 				inums[3] = toinum
 				inodes = lockInodes(op, inums)
@@ -735,7 +739,7 @@ func (nfs *Nfs) NFSPROC3_RENAME(args nfstypes.RENAME3args) nfstypes.RENAME3res {
 				to = inodes[3]
 			} else {
 				inums := make([]common.Inum, 3)
-				inums[0] = dipfrom.Inum
+				inums[0] = dipfromInum
 				inums[1] = frominum
 				inums[2] = toinum
 				inodes = lockInodes(op, inums)
